@@ -52,8 +52,8 @@ CHECKS = {
              "and a corpus of lexical corner cases: escapes, unterminated and prefixed strings, f-string braces, line continuations, deep nesting) is parsed under 6 dialects drawn as chains D<=D' from the 768-point lattice, inside catch_unwind; "
              "on success the whole public AST is walked asserting span containment, char boundaries, identifier/string-literal spans; on failure the error must have a message and a span inside the file on char boundaries and must render; "
              "for every comparable pair an input accepted under D must be accepted under D' with identical tree and spans. ASan build in thorough. Held on the inputs parsed.",
-        note="trusted: the AST walker in harness/svh/src/parse.rs; nesting bounded to <=200; a single timeout is inconclusive; the libFuzzer leg of the design is not built (the same oracle runs on generated inputs only)",
-        technique="runtime assertion monitor (totality, span well-formedness, dialect monotonicity) over generated/mutated inputs + ASan",
+        note="trusted: the AST walker in harness/svh/src/parse.rs; nesting bounded to <=200; a single timeout is inconclusive; thorough adds a libFuzzer leg (harness/fz) driving the same oracle, whose artifacts are re-judged by the ordinary runner",
+        technique="runtime assertion monitor (totality, span well-formedness, dialect monotonicity) over generated/mutated inputs + ASan + coverage-guided fuzzing of the same monitor (thorough)",
         ref="DESIGN.md section 3 C05"),
     "C06": dict(
         engine="svh",
